@@ -266,6 +266,8 @@ def run(tree, rep, tier):
     prog = Program(tree)
     r_tables(prog, rep)
     r6(tree, rep)
+    from .C01 import decrypt_raises_only_cryptoerror
+    decrypt_raises_only_cryptoerror(tree, rep, "C08.R7")
     r5(tree, rep, tier)
 
 
